@@ -796,11 +796,15 @@ def estimate_symbolic_duration(
             # NOTE: Guess tuplets (Naive) it doesn't cover composite durations from tied notes.
             type = SYM_STRAIGHT_DURS[i + 1]["type"]
             normal_notes = 2
-            while (normal_notes * STRAIGHT_DURS[i + 1] / qdur) % 1 > eps:
+            # smallest number of normal notes for which the number of actual
+            # notes is (numerically) a whole number
+            actual_notes = normal_notes * STRAIGHT_DURS[i + 1] / qdur
+            while abs(actual_notes - round(actual_notes)) > eps:
                 normal_notes += 1
+                actual_notes = normal_notes * STRAIGHT_DURS[i + 1] / qdur
             return {
                 "type": type,
-                "actual_notes": math.ceil(normal_notes * STRAIGHT_DURS[i + 1] / qdur),
+                "actual_notes": int(round(actual_notes)),
                 "normal_notes": normal_notes,
             }
 
